@@ -337,17 +337,20 @@ class Normalizer:
                         raise Unsupported('return inside loop')
                     out.append(st)
                     continue
-                if isinstance(st, (ast.Assign, ast.AugAssign, ast.AnnAssign, ast.Expr, ast.Raise, ast.Pass, ast.Break, ast.Continue, ast.Delete)):
+                if isinstance(st, ast.Raise):
+                    out.append(st)
+                    return out, True          # nothing after a raise runs: the path is terminated
+                if isinstance(st, (ast.Assign, ast.AugAssign, ast.AnnAssign, ast.Expr, ast.Pass, ast.Break, ast.Continue, ast.Delete)):
                     out.append(st)
                     continue
                 raise Unsupported(type(st).__name__)
             return out, False
         try:
-            new_body, term = conv(body)
+            # falling off the end returns None: made explicit, so that it is assigned only on the paths that really fall
+            # through (a trailing `result = None` after the block would overwrite the values of the returning paths)
+            new_body, term = conv(body + ([ast.Return(value=None)] if result else []))
         except Unsupported:
             return None
-        if result and not term:
-            new_body.append(ast.Assign(targets=[ast.Name(id=result, ctx=ast.Store())], value=ast.Constant(value=None)))
         full = {}
         full.update(env)
         for k, v in ren.items():
